@@ -76,24 +76,17 @@ func (f *Dox) Call(s *slip.Scope, args slip.List, depth int) (result slip.Object
 			}
 			break
 		}
-		for i := 2; i < len(args); i++ {
-			switch args[i].(type) {
-			case slip.List, slip.Funky:
-				switch tr := slip.EvalArg(ns, args, i, d2).(type) {
-				case *slip.ReturnResult:
-					if tr.Tag == nil {
-						return tr.Result
-					}
-					return tr
-				case *GoTo:
-					for i++; i < len(args); i++ {
-						if args[i] == tr.Tag {
-							break
-						}
-					}
-				}
-				// Anything other than ReturnResult or GoTo just continues.
+		switch tr := EvalTagBody(ns, args, 2, d2).(type) {
+		case *slip.ReturnResult:
+			if tr.Tag == nil {
+				return tr.Result
 			}
+			// return-from made sure a block with that name encloses this
+			// form.
+			return tr
+		case *GoTo:
+			// The tag is in an enclosing tagbody.
+			return tr
 		}
 		for _, sb := range steps {
 			ns.UnsafeLet(sb.sym, ns.Eval(sb.step, d2))
